@@ -36,6 +36,18 @@ theorem parse_render_roundtrip (e : Expr) (hw : wf e = true) (hh : height e ≤ 
     have : ts.map ptOf = rtoks e := by simpa [h, Except.toOption] using hl
     simp [this, hp]
 
+/-- … also after any amount of leading white space (the canonical text itself ends with a blank) -/
+theorem parse_render_roundtrip_lead (e : Expr) (hw : wf e = true) (hh : height e ≤ XpConsts.maxBlockDepth) (lead : Bytes)
+    (hl : ∀ c ∈ lead, Path.isWs c = true) : parse (lead ++ render e) = some e := by
+  obtain ⟨ps, hp⟩ := LemmasParse.parseToks_rtoks e hw hh
+  have hlx := LemmasLexRt.lex_render_lead e hw lead hl
+  unfold parse parseFull
+  cases h : lex (lead ++ render e) with
+  | error er => simp [h, Except.toOption] at hlx
+  | ok ts =>
+    have : ts.map ptOf = rtoks e := by simpa [h, Except.toOption] using hlx
+    simp [this, hp]
+
 /-- the tokenizer half on its own: the kinds and texts of the tokens of the canonical text are the renderer's tokens -/
 theorem lex_render_tokens (e : Expr) (hw : wf e = true) :
     (lex (render e)).toOption.map (·.map ptOf) = some (rtoks e) :=
@@ -229,6 +241,39 @@ theorem lex_opname_whole_when_repaired (hsw : XpConsts.operNameWhole = true) (st
           · exact Or.inr ⟨_, by simp, key _ hn⟩
           · exact Or.inr ⟨_, by simp, key _ hn⟩
         · cases h
+
+/-- REC §3.7 for operator names, TRUE for the repaired source: in operator position an NCName that is none of the four
+operator names is an error -/
+theorem lex_opname_disambiguation_repaired (hsw : XpConsts.operNameWhole = true) (st : St) (n : Nat)
+    (hc : operCtx st.acc = true) (hn : Path.ncname st.rest = some n)
+    (hnot : st.rest.take n ∉ [[0x61, 0x6e, 0x64], [0x6f, 0x72], [0x6d, 0x6f, 0x64], [0x64, 0x69, 0x76]]) :
+    ∃ p, lexStep st = .error p := by
+  obtain ⟨c, r, hr, hcr⟩ := LemmasLexRt.ncname_first hn
+  have hstep : lexStep st = lexOper st := by
+    simp only [lexStep, hr]
+    rcases hcr with h | h
+    · rw [LemmasLexRt.lexChar_ident st r h, hc]; rfl
+    · rw [LemmasLexRt.lexChar_high st r h, hc]; rfl
+  have hstar : startsWith st.rest [0x2a] = false := by
+    have : c ≠ 0x2a := by
+      rcases hcr with h | h
+      · have := (Path.identStart_ne h).2.2.2.2.2.2.2.2.2.2.2.2.2.2.2.2.2.2.2; simpa using this
+      · intro e; subst e; simp at h
+    simp [startsWith, hr, List.isPrefixOf, Ne.symm this]
+  have hno : ∀ nm ∈ [[0x61, 0x6e, 0x64], [0x6f, 0x72], [0x6d, 0x6f, 0x64], [0x64, 0x69, 0x76]], operName st nm = false := by
+    intro nm hm
+    cases hop : operName st nm with
+    | false => rfl
+    | true =>
+      exfalso
+      simp only [operName, hsw, Bool.not_true, Bool.false_or, Bool.and_eq_true, beq_iff_eq] at hop
+      have hlen : n = nm.length := by rw [hn] at hop; exact Option.some.inj hop.2
+      have hpre : nm <+: st.rest := List.isPrefixOf_iff_prefix.mp hop.1
+      have : st.rest.take n = nm := by rw [hlen]; exact (List.prefix_iff_eq_take.mp hpre).symm
+      exact hnot (this ▸ hm)
+  refine ⟨st.pos, ?_⟩
+  rw [hstep]
+  simp [lexOper, hstar, hno]
 
 /-- what a string denotes depends on the kinds and texts of its tokens only -/
 theorem parse_eq_of_tokens (s1 s2 : Bytes)
